@@ -815,6 +815,34 @@ def enumeration(thorough):
     return out
 
 
+def two_faults():
+    """two faulty files in ONE run: a content-faulty file (skipped inside _parse_file) and a file whose open() fails
+    (skipped in run_tests), in both orders and at several distances — bookkeeping that is only right while nothing was
+    skipped earlier shows up here"""
+    out = []
+    body = b64(FAULTY_BODY)
+    for n in (4, 5):
+        for p1 in range(n):
+            for p2 in range(n):
+                if p1 == p2:
+                    continue
+                for ckind in ("syntax_error", "nul_bytes"):
+                    for okind in ("ENOENT", "ELOOP"):
+                        files = []
+                        h = 0
+                        for i in range(n):
+                            if i == p1:
+                                files.append({"name": "%02d_content.py" % i, "role": "faulty", "src": b64(CONTENT_FAULTS[ckind])})
+                            elif i == p2:
+                                files.append({"name": "%02d_faulty.py" % i, "role": "faulty", "src": body})
+                            else:
+                                files.append({"name": "%02d_healthy.py" % i, "role": "healthy", "src": {"healthy": h % 3}})
+                                h += 1
+                        scn = {"files": files, "fault": {"kind": okind, "target": p2}, "ignore_nosec": False}
+                        out.append((f"two:{ckind}@{p1}+{okind}@{p2}/N{n}", scn))
+    return out
+
+
 def stdin_scenarios():
     out = []
     for n in (1, 2):
@@ -961,6 +989,16 @@ def _run(res, ctx):
             res.count("outcome:" + ("escaped" if obs["escaped"] else ("skipped:" + str(sk[0]) if sk else "all-scanned")))
             res.case(label, True, sample={"label": label, "files_list": [os.path.basename(p) for p in obs["files_list"]],
                                          "skipped": [[os.path.basename(n), r] for n, r in obs["skipped"]]} if label.endswith("N3/p1/ign0") and kind in ("ELOOP", "EIO_read", "bad_utf8_comment") else None)
+        # ---- (1b) two faulty files in one run
+        tf = two_faults()
+        if not thorough:
+            rng_tf = C.rng_for(res.seed, "C04", "two-faults")
+            tf = rng_tf.sample(tf, 40)
+        for label, scn in tf:
+            ok, obs = run_in_process(res, drv, scratch, scn, label)
+            res.count("two-faults")
+            res.case(label, True, sample={"label": label, "files_list": [os.path.basename(p) for p in obs["files_list"]],
+                                         "skipped": [[os.path.basename(n), r] for n, r in obs["skipped"]]} if label.endswith("@1+ENOENT@3/N4") else None)
         # ---- (2) stdin
         for label, scn in stdin_scenarios():
             ok, obs = run_in_process(res, drv, scratch, scn, label)
